@@ -255,3 +255,118 @@ def check_C06(ck, res, replay):
 def check_C07(ck, res, replay):
     run_prog_check(ck, res, replay, "C07", False, 1500, 40000)
     return ck.finish(res, "proof", ASSUME_COMMON + ["HashMap/HashSet = finite maps/sets; usize = unbounded N (no overflow on handles)"])
+
+
+# ====================================================================== C18 nogood store
+def ng_matches(g, a):
+    """nogood g (tv string) is matched by total assignment a (tuple of bools)"""
+    return all(c == "u" or (c == "T") == a[i] for i, c in enumerate(g))
+
+
+def judge_ng(body, meta, a):
+    """judges the implementation's answers of one NG history against the property text;
+    returns list of (key, what)"""
+    n = meta["n"]
+    bad = []
+    if a is None or any(l.startswith("PANIC") for l in a):
+        return [("panic", "implementation panicked")]
+    added = []
+    qi = 0
+    answers = {}
+    for l in a:
+        w = l.split(" ", 2)
+        answers[w[0]] = l.split(" ", 1)[1]
+    totals = list(itertools.product([False, True], repeat=n))
+    for line in body:
+        w = line.split()
+        if w[0] == "add":
+            added.append(w[1])
+        elif w[0] in ("concl", "closure", "conclude", "dump"):
+            ans = answers.get("q%d" % qi)
+            qi += 1
+            if ans is None:
+                bad.append(("missing", "no answer for query %d" % (qi - 1)))
+                continue
+            if w[0] == "concl":
+                I = w[1]
+                ext = [t for t in totals if ng_matches(I, t) and not any(ng_matches(g, t) for g in added)]
+                r = ans.split()[1]
+                if r == "CONFLICT":
+                    if ext:
+                        bad.append(("spurious-conflict", "conflict reported for %s although %s avoids all added nogoods %s" % (I, "".join("T" if x else "F" for x in ext[0]), added)))
+                else:
+                    if any(all(c == "u" or c == I[i] for i, c in enumerate(g)) for g in added):
+                        bad.append(("missed-conflict", "interpretation %s matches an added nogood but no conflict is reported" % I))
+                    for i in range(n):
+                        if I[i] != "u" and r[i] != I[i]:
+                            bad.append(("changed", "conclusions %s change a decided position of %s" % (r, I)))
+                        if I[i] == "u" and r[i] != "u":
+                            if any(t[i] != (r[i] == "T") for t in ext):
+                                bad.append(("unsound-conclusion", "conclusion %s at position %d of %s is not forced by %s" % (r[i], i, I, added)))
+            elif w[0] == "closure":
+                I = w[1]
+                ext = [t for t in totals if ng_matches(I, t) and not any(ng_matches(g, t) for g in added)]
+                if ans.startswith("closure Inconsistent"):
+                    if ext:
+                        bad.append(("spurious-conflict", "closure inconsistent for %s although an extension avoids all added nogoods %s" % (I, added)))
+                elif ans.startswith("closure Update"):
+                    r = ans.split()[2]
+                    for i in range(n):
+                        if I[i] != "u" and r[i] != I[i]:
+                            bad.append(("changed", "closure changes a decided position"))
+                        if I[i] == "u" and r[i] != "u" and any(t[i] != (r[i] == "T") for t in ext):
+                            bad.append(("unsound-conclusion", "closure value at %d not forced" % i))
+            elif w[0] == "dump":
+                parts = ans.split(" ", 1)
+                stored = [g for b in (parts[1].split("|") if len(parts) > 1 else []) for g in b.split(",") if g]
+                ex_added = {t for t in totals if any(ng_matches(g, t) for g in added)}
+                ex_store = {t for t in totals if any(ng_matches(g, t) for g in stored)}
+                if ex_added != ex_store:
+                    d = sorted(ex_added ^ ex_store)[0]
+                    bad.append(("forgotten", "mode %s: assignment %s is excluded by the added nogoods %s but not by the store %s (or vice versa)" % (
+                        meta["mode"], "".join("T" if x else "F" for x in d), added, stored)))
+    return bad
+
+
+def check_C18(ck, res, replay):
+    common_front(ck, res, "C18")
+    hbin = ck.build_harness(res)
+    rng = gen.Rng(res.seed ^ 0xC18)
+    cf = gen.CaseFile()
+    if replay:
+        r = json.load(open(replay))
+        cf.add("NG", r["body"], meta=r["meta"])
+    else:
+        corpus = os.path.join(ck.ROOT, "corpus", "ng.json")
+        if os.path.exists(corpus):
+            for c in json.load(open(corpus)):
+                cf.add("NG", c["body"], prefix="k", meta=c["meta"])
+        for _ in range(3000 if res.tier == "quick" else 100000):
+            body, meta = gen.gen_ng_case(rng)
+            cf.add("NG", body, meta=meta)
+    impl, model = correspond(ck, res, cf, hbin, "C18")
+    nontriv = set()
+    mism = 0
+    dist = {"none": 0, "equiv": 0, "subsume": 0}
+    for cid, (kind, body, meta) in cf.meta.items():
+        a, b = impl.get(cid), model.get(cid)
+        dist[meta["mode"]] += 1
+        if sum(1 for l in body if l.startswith("add")) >= 3:
+            nontriv.add(tuple(body))
+        for key, what in judge_ng(body, meta, a):
+            res.violations.append({"key": "ng:" + key + ":" + meta["mode"] if key == "forgotten" else "ng:" + key, "what": what,
+                                   "body": body, "meta": meta, "observed": a, "model": b})
+        if a != b:
+            mism += 1
+            if mism <= 5:
+                res.broken.append(("correspondence", "nogood history %s: implementation and model differ" % cid,
+                                   json.dumps({"body": body, "impl": a, "model": b})[:2000]))
+    res.cov["evaluations"] = len(cf.meta)
+    res.cov["distinct_nontrivial"] = len(nontriv)
+    res.cov["rule"] = ("random add sequences over 2..6 positions (duplicates, supersets, subsets and one-literal flips of earlier nogoods "
+                       "over-represented) under the three modes, interleaved with conclusions / closure / conclude queries on random partial "
+                       "interpretations and a final dump; non-trivial = at least 3 adds; judged by enumeration of all total assignments")
+    res.cov["samples"] = [cf.meta[c][1] for c in list(cf.meta)[:2]]
+    res.extra["mode_distribution"] = dist
+    res.extra["model_mismatches"] = mism
+    return ck.finish(res, "proof", ASSUME_COMMON + ["roaring bitmaps = finite sets of positions"])
